@@ -11,6 +11,9 @@ import (
 // Key is {client_addr}_{client_port}_{dest_addr}_{dest_port}_{channel_id}_{class_id}_{method_id}
 type requestResponseMatcher struct {
 	openMessagesMap *sync.Map
+	// registerMutex makes the look-up of the counterpart and the store of the new message
+	// one atomic step; otherwise both halves can miss each other and the pair is lost.
+	registerMutex sync.Mutex
 }
 
 func createResponseRequestMatcher() api.RequestResponseMatcher {
@@ -61,6 +64,8 @@ func (matcher *requestResponseMatcher) registerRequest(ident string, method stri
 		},
 	}
 
+	matcher.registerMutex.Lock()
+	defer matcher.registerMutex.Unlock()
 	if response, found := matcher.openMessagesMap.LoadAndDelete(ident); found {
 		// Type assertion always succeeds because all of the map's values are of api.GenericMessage type
 		responseAMQPMessage := response.(*api.GenericMessage)
@@ -90,6 +95,8 @@ func (matcher *requestResponseMatcher) registerResponse(ident string, method str
 		},
 	}
 
+	matcher.registerMutex.Lock()
+	defer matcher.registerMutex.Unlock()
 	if request, found := matcher.openMessagesMap.LoadAndDelete(ident); found {
 		// Type assertion always succeeds because all of the map's values are of api.GenericMessage type
 		requestAMQPMessage := request.(*api.GenericMessage)
